@@ -230,7 +230,8 @@ def hap_secs(t, edits, seq, reading):
     return out
 
 
-def linear_products(ref:Ref, tid, edits, p, opts, reading='U', strict=True, novel=None):
+def linear_products(ref:Ref, tid, edits, p, opts, reading='U', strict=True, novel=None,
+        keep_open=False):
     """ products of one haplotype of a linear transcript """
     t = ref.tx(tid)
     seq = apply_edits(ref.tx_seq(tid), edits)
@@ -241,7 +242,7 @@ def linear_products(ref:Ref, tid, edits, p, opts, reading='U', strict=True, nove
     # a product that runs into the 3' end of the transcript without meeting a stop codon has
     # an unknown C-terminus: never demanded (L); permitted (U) unless the transcript is
     # mRNA_end_NF
-    drop_open = strict or 'mRNA_end_NF' in t.get('tags', [])
+    drop_open = (strict or 'mRNA_end_NF' in t.get('tags', [])) and not keep_open
     if coding:
         # cds_start_NF: the first residue is not known to be the initiator; the tool reports the
         # Met-removed twin when it happens to be M: permitted (U), never demanded (L)
@@ -282,6 +283,10 @@ def reference_products(ref:Ref, tid, p, opts, strict):
     """ products of the unmodified transcript under the same options (per-transcript
     deny-list, M8). strict=True gives the certain set, False the possible set """
     res = linear_products(ref, tid, [], p, opts, 'U', strict=strict)
+    if not strict:
+        # the deny-list of the tool is the digest of the whole reference translation with its
+        # W>F / Sec forms, the last (open) peptide of an mRNA_end_NF transcript included
+        res |= linear_products(ref, tid, [], p, opts, 'U', strict=False, keep_open=True)
     return res
 
 
